@@ -108,4 +108,70 @@ func rePreprocessSegment(s *ldmodel.Segment) {
 }
 
 // handForms: the construction forms that do not go through the builders.
-var handForms = []string{"pre", "plain", "json", "repre"}
+var handForms = []string{"pre", "plain", "json", "repre", "partial"}
+
+// Construction form "partial": an item of which only SOME clauses and key lists carry tables — a
+// preprocessed flag that got a clause or a target list appended afterwards, a plain flag into which
+// a clause of a built flag was copied. Every accessor decides per element whether a table is there.
+func partialPreprocessFlag(f *ldmodel.FeatureFlag, w *WFlag) {
+	h := hashStr("partial/" + w.Key + fmt.Sprint(len(w.Rules), len(w.Targets)))
+	ldmodel.PreprocessFlag(f)
+	pick := func(i, j int) bool { return hashStr(fmt.Sprint(h, i, j))&1 == 0 }
+	for i := range f.Rules {
+		for j := range f.Rules[i].Clauses {
+			if pick(i, j) {
+				f.Rules[i].Clauses[j] = w.Rules[i].Clauses[j].build() // the plain element
+			}
+		}
+	}
+	for i := range f.Targets {
+		if pick(-1, i) {
+			f.Targets[i] = buildTargets(w.Targets[i : i+1])[0]
+		}
+	}
+	for i := range f.ContextTargets {
+		if pick(-2, i) {
+			f.ContextTargets[i] = buildTargets(w.CTargets[i : i+1])[0]
+		}
+	}
+}
+
+func partialPreprocessSegment(s *ldmodel.Segment, w *WSegment) {
+	h := hashStr("partial/" + w.Key + fmt.Sprint(len(w.Rules), len(w.Inc)))
+	pick := func(i, j int) bool { return hashStr(fmt.Sprint(h, i, j))&1 == 0 }
+	if pick(-9, 0) {
+		// the converse: a plain segment whose rules come from a preprocessed twin
+		twin := *s
+		twin.Rules = append([]ldmodel.SegmentRule{}, s.Rules...)
+		for i := range twin.Rules {
+			twin.Rules[i].Clauses = append([]ldmodel.Clause{}, s.Rules[i].Clauses...)
+		}
+		ldmodel.PreprocessSegment(&twin)
+		for i := range s.Rules {
+			for j := range s.Rules[i].Clauses {
+				if pick(i, j) {
+					s.Rules[i].Clauses[j] = twin.Rules[i].Clauses[j]
+				}
+			}
+		}
+		return
+	}
+	ldmodel.PreprocessSegment(s)
+	for i := range s.Rules {
+		for j := range s.Rules[i].Clauses {
+			if pick(i, j) {
+				s.Rules[i].Clauses[j] = w.Rules[i].Clauses[j].build()
+			}
+		}
+	}
+	for i := range s.IncludedContexts {
+		if pick(-1, i) {
+			s.IncludedContexts[i] = buildSegTargets(w.IncC[i : i+1])[0]
+		}
+	}
+	for i := range s.ExcludedContexts {
+		if pick(-2, i) {
+			s.ExcludedContexts[i] = buildSegTargets(w.ExcC[i : i+1])[0]
+		}
+	}
+}
